@@ -129,6 +129,8 @@ def lines_for(key):
         out.append(f":{v['invalid'][0]}: {v['invalid'][1]}")
     if v["flag"]:
         out.append(f":{v['flag']}:")
+    kk = v["valid"][0][0] if v["valid"] else "class"
+    out += [f":{kk}: |", f":{kk}: >-", f"{kk}: |-", ":name: >"]  # (no keep-chomping '+': whether a blank line before the closing '---' belongs to the block is not something the property states)
     out += [":nope: 1", "", "text", "---", "----", ":not option"]
     return out
 
@@ -302,6 +304,10 @@ def eval_split(ctx, case):
         simple = []
         for l in ol:
             mm = SIMPLE_OPT.match(l)
+            if mm and (mm.group(2) or "") in ("|", ">", "|-", ">-", "|+", ">+"):
+                # a block-scalar indicator with no indented line after it (every entry here starts at column 0): an empty value, and the next entry is an entry
+                simple.append((mm.group(1), ""))
+                continue
             if not mm or (mm.group(2) or "")[:1] in "&*!|>'\"%@`{}[],-?#:" or " #" in (mm.group(2) or "") or ": " in (mm.group(2) or "") or (mm.group(2) or "").endswith(":"):
                 simple = None
                 break
@@ -339,6 +345,8 @@ def eval_split(ctx, case):
 
                 blk = "\n".join(m.opt_lines) if content.startswith("---") else "\n".join(l.lstrip()[1:] for l in m.opt_lines)
                 if content.startswith("---"):
+                    if m.opt_lines and any(re.match(r"-{3,}", l) for l in lf_lines(content)[1:]):
+                        blk += "\n"  # between two delimiter lines every option line is a complete line (a clipped block scalar keeps its final line break)
                     blk = dedent(blk)
                 want = _y.safe_load(blk) or {}
             except Exception:  # noqa: BLE001
